@@ -173,4 +173,134 @@ theorem otree_spanning_of_length {ds : DSymData} (hv : ValidSet ds.dset) {root :
   · obtain ⟨e, he, h''⟩ := List.mem_map.1 h'
     exact Or.inr ⟨e, he, h''⟩
 
+/-! ### completeness: on a connected symbol the breadth-first tree has `size - 1` facets -/
+
+theorem otree_length_le {ds : DSymData} (hv : ValidSet ds.dset) {root : Nat}
+    (hr : 1 ≤ root ∧ root ≤ ds.size) {L : List Edge} (h : OTree ds root L) : L.length + 1 ≤ ds.size := by
+  obtain ⟨hnd, hrng⟩ := otree_nodup hv hr h
+  have hsub : root :: targetsOf ds L ⊆ ds.view.elements := fun x hx =>
+    (DS.mem_elements ds.view x).2 (hrng x hx)
+  have := (hnd.subperm hsub).length_le
+  unfold View.elements targetsOf at this
+  simp at this
+  exact this
+
+/-- every reached chamber that is no longer in the queue has all its neighbours reached -/
+def Closed (ds : DSymData) (queue : List Nat) (tree : List Edge) : Prop :=
+  ∀ x, Reached ds 1 tree x → x ∉ queue → ∀ i, i ≤ ds.dim → Reached ds 1 tree (ds.dset.opU i x)
+
+theorem bfs_inner_full {ds : DSymData} (hv : ValidSet ds.dset) {d : Nat} (hd1 : 1 ≤ d) (hd2 : d ≤ ds.size) :
+    ∀ (is : List Nat), (∀ i ∈ is, i ≤ ds.dim) →
+    ∀ (seen : Array Bool) (queue : List Nat) (tree : List Edge),
+    BfsInv ds queue seen tree → Reached ds 1 tree d →
+    let r := is.foldl (fun (acc : Array Bool × List Nat × List (Nat × Nat)) i =>
+      let e := (gOf ds).op i d
+      if e == 0 || acc.1.getD e true then acc
+      else (acc.1.setIfInBounds e true, acc.2.1 ++ [e], acc.2.2 ++ [(d, i)])) (seen, queue, tree)
+    (r.2.1.length + tree.length = queue.length + r.2.2.length) ∧
+    (∀ i ∈ is, Reached ds 1 r.2.2 (ds.dset.opU i d)) ∧
+    (∀ e ∈ tree, e ∈ r.2.2) ∧ (∀ x ∈ queue, x ∈ r.2.1) ∧
+    (∀ x ∈ r.2.1, x ∈ queue ∨ ¬ Reached ds 1 tree x) ∧
+    (∀ x, ¬ Reached ds 1 tree x → Reached ds 1 r.2.2 x → x ∈ r.2.1)
+  | [], _, seen, queue, tree, _, _ => by
+    simp only [List.foldl_nil]
+    exact ⟨rfl, fun i hi => (by cases hi), fun e he => he, fun x hx => hx, fun x hx => Or.inl hx,
+      fun x h1 h2 => absurd h2 h1⟩
+  | i :: is, his, seen, queue, tree, h, hr => by
+    simp only [List.foldl_cons]
+    have hi := his i List.mem_cons_self
+    have re := hv.range i d hi hd1 hd2
+    have he0 : ((gOf ds).op i d == 0) = false := by
+      rw [gOf_op]
+      have := re.1
+      simp; omega
+    rw [he0, Bool.false_or]
+    by_cases hs : seen.getD ((gOf ds).op i d) true = true
+    · rw [if_pos hs]
+      obtain ⟨a1, a2, a3, a4, a5, a6⟩ := bfs_inner_full hv hd1 hd2 is
+        (fun i' hi' => his i' (List.mem_cons_of_mem _ hi')) seen queue tree h hr
+      refine ⟨a1, ?_, a3, a4, a5, a6⟩
+      intro i' hi'
+      rcases List.mem_cons.1 hi' with h' | h'
+      · rw [h']
+        exact ((h.seen _ re.1 re.2).1 hs).mono a3
+      · exact a2 i' h'
+    · rw [if_neg hs]
+      have hnr : ¬ Reached ds 1 tree (ds.dset.opU i d) := fun hr' => hs ((h.seen _ re.1 re.2).2 hr')
+      have hstep := bfs_inner hv hd1 hd2 [i] (fun i' hi' => by
+        simp only [List.mem_singleton] at hi'; rw [hi']; exact hi) seen queue tree h hr
+      simp only [List.foldl_cons, List.foldl_nil] at hstep
+      rw [he0, Bool.false_or, if_neg hs] at hstep
+      obtain ⟨a1, a2, a3, a4, a5, a6⟩ := bfs_inner_full hv hd1 hd2 is
+        (fun i' hi' => his i' (List.mem_cons_of_mem _ hi')) _ _ _ hstep
+        (hr.mono (fun e he => List.mem_append_left _ he))
+      refine ⟨?_, ?_, fun e he => a3 e (List.mem_append_left _ he),
+        fun x hx => a4 x (List.mem_append_left _ hx), ?_, ?_⟩
+      rotate_right
+      · intro x hx1 hx2
+        by_cases hmid : Reached ds 1 (tree ++ [(d, i)]) x
+        · -- x is the chamber that was just pushed
+          rcases hmid with h' | ⟨e, he, h'⟩
+          · exact absurd (Or.inl h') hx1
+          · rcases List.mem_append.1 he with he | he
+            · exact absurd (Or.inr ⟨e, he, h'⟩) hx1
+            · simp only [List.mem_singleton] at he
+              subst he
+              apply a4
+              rw [← h', gOf_op]
+              simp
+        · exact a6 x hmid hx2
+      · simp only [List.length_append, List.length_singleton] at a1
+        omega
+      · intro i' hi'
+        rcases List.mem_cons.1 hi' with h' | h'
+        · rw [h']
+          exact Reached.mono a3 (Or.inr ⟨(d, i), by simp, rfl⟩)
+        · exact a2 i' h'
+      · intro x hx
+        rcases a5 x hx with h' | h'
+        · rcases List.mem_append.1 h' with h'' | h''
+          · exact Or.inl h''
+          · simp only [List.mem_singleton] at h''
+            rw [h'', gOf_op]
+            exact Or.inr hnr
+        · exact Or.inr (fun hr' => h' (hr'.mono (fun e he => List.mem_append_left _ he)))
+
+theorem bfsLoop_closed {ds : DSymData} (hv : ValidSet ds.dset) (hsize : 1 ≤ ds.size) :
+    ∀ (fuel : Nat) (queue : List Nat) (seen : Array Bool) (tree : List Edge),
+    BfsInv ds queue seen tree → Closed ds queue tree → queue.length + ds.size ≤ fuel + tree.length + 1 →
+    Closed ds [] (SpecC09.bfsLoop (gOf ds) fuel queue seen tree).2
+  | 0, queue, seen, tree, h, hc, hm => by
+    unfold SpecC09.bfsLoop
+    have := otree_length_le hv ⟨Nat.le_refl 1, hsize⟩ h.otree
+    have hq : queue = [] := List.eq_nil_of_length_eq_zero (by omega)
+    rw [hq] at hc
+    exact hc
+  | fuel + 1, [], seen, tree, h, hc, _ => by
+    unfold SpecC09.bfsLoop; exact hc
+  | fuel + 1, d :: queue, seen, tree, h, hc, hm => by
+    unfold SpecC09.bfsLoop
+    simp only
+    obtain ⟨d1, d2, dr⟩ := h.queue d List.mem_cons_self
+    have h' : BfsInv ds queue seen tree :=
+      ⟨h.size, h.seen, h.otree, fun x hx => h.queue x (List.mem_cons_of_mem _ hx)⟩
+    have hinv := bfs_inner hv d1 d2 (gOf ds).indices (fun i hi => (mem_gindices ds i).1 hi) seen queue tree h' dr
+    obtain ⟨a1, a2, a3, a4, a5, a6⟩ := bfs_inner_full hv d1 d2 (gOf ds).indices
+      (fun i hi => (mem_gindices ds i).1 hi) seen queue tree h' dr
+    apply bfsLoop_closed hv hsize fuel _ _ _ hinv
+    · -- closedness after processing d
+      intro x hx hxq i hi
+      by_cases hxd : x = d
+      · rw [hxd]; exact a2 i ((mem_gindices ds i).2 hi)
+      · by_cases hxr : Reached ds 1 tree x
+        · have hxq' : x ∉ d :: queue := by
+            intro hm'
+            rcases List.mem_cons.1 hm' with h'' | h''
+            · exact hxd h''
+            · exact hxq (a4 x h'')
+          exact (hc x hxr hxq' i hi).mono a3
+        · exact absurd (a6 x hxr hx) hxq
+    · simp only [List.length_cons] at hm
+      omega
+
 end DSymVerif.FGP
